@@ -17,7 +17,7 @@ import shutil
 
 import vlib
 
-PROPS = ['Rangers.Props.C17', 'Rangers.Props.C17B', 'Rangers.Props.C17C']
+PROPS = ['Rangers.Props.C17', 'Rangers.Props.C17B', 'Rangers.Props.C17C', 'Rangers.Props.C17D']
 DRIVERS = ['C17']
 META = dict(
     level='proof',
@@ -66,6 +66,10 @@ def correspond(ctx):
     n = 1200 if ctx.thorough() else 60
     c = vlib.correspond(ctx, 'c17', 'C17', ['scripts=%d' % n], canon=canon, timeout=2400, nontrivial=nontrivial)
     c['name'] = 'pool-scripts'
+    # TxPool.Clear() re-binds the pool's store for the rest of the process: a process of its own
+    c2 = vlib.correspond(ctx, 'c17', 'C17', ['clear=1'], canon=canon, timeout=600, nontrivial=nontrivial)
+    c2['name'] = 'pool-clear'
+    return [c, c2]
     # a panic of the real pool on a well-formed history is a property-level fact by itself;
     # PANIC answers the model also gives (Less on equal hashes called directly, receipts without
     # transaction in the malformed stream) are part of the modelled behaviour.
